@@ -143,6 +143,18 @@ Example C12_pipeline_ex :
          [(1%nat, [103; 66; 0; 0; 3; 1; 128]); (2%nat, [104; 206; 56; 128])].
 Proof. repeat constructor; eexists; reflexivity. Qed.
 
+(* The context after ANY chunked stream of clean units - valid, corrupt or foreign NALs alike - is the fold over the units of
+   "parse this NAL alone against the context so far and store it if it is an accepted SPS / PPS" (ctx_after_unit =
+   Driver.ctx_step on the units of type 7 / 8, the very function behind the context histories of C05, C06 and C19), whatever
+   the partition into pushes: the C19 theorems (last writer wins, independence of ids) therefore speak about streams. *)
+Theorem C12_stream_context : forall units t cs ctx0 pre,
+  Forall (fun u => unit_ok (snd u)) units -> (t = 0%nat \/ 3 <= t)%nat ->
+  Forall (fun u => exists p, unescape (skipn 1 (snd u)) = Some p) units ->
+  concat cs = annexb_encode units t ->
+  ps_ctx (fst (pipeline_run ctx0 [] pre (map APush cs ++ [AReset]))) = fold_left ctx_after_unit (map snd units) ctx0.
+Proof. exact stream_context. Qed.
+Print Assumptions C12_stream_context.
+
 (* From the structures to the context, through every layer at once: an SPS and a PPS referring to it, each encoded per
    7.3.2.1 / 7.3.2.2, completed by rbsp trailing bits, escaped (7.4.1), given the header bytes 0x67 / 0x68, serialised as
    an Annex B stream (any start-code lengths / zero padding) and pushed in ANY pieces into the pipeline starting from any
